@@ -76,6 +76,12 @@ def synthetic_case(rec, seedt):
     mag = 10.0 ** rng.uniform(-150, 150) if rng.random() < 0.5 else 10.0 ** rng.uniform(-3, 3)
     a = mag * 10 ** rng.uniform(-2, 2, size=m)
     b = mag * 10 ** rng.uniform(-2, 2, size=m)
+    if rng.random() < 0.3:
+        # wildly unbalanced channels (|H| up to 1e+-100); every product a*b stays representable
+        ea = float(rng.uniform(-100, 100))
+        a = 10.0 ** ea * 10 ** rng.uniform(-2, 2, size=m)
+        b = 10.0 ** (-ea) * 10 ** rng.uniform(-2, 2, size=m)
+        mag = 10.0 ** ea
     phi = rng.uniform(-np.pi, np.pi, size=m)
     fs = float(rng.choice([1.0, 2.0, 1000.0]))
     desc = {"kind": "synthetic", "seed": list(seedt), "mag": mag, "fs": fs}
